@@ -1009,14 +1009,33 @@ pub fn run_c09(tier: Tier) -> i32 {
             acc
         })
         .reduce(Acc::default, Acc::merge);
-    let mut acc = acc_a.merge(acc_b).merge(acc_c).merge(acc_d);
+    // (e) long text in every place the parser reads text: field values, ACK messages and command names, with
+    // 2-, 3- and 4-byte characters straddling every likely clip length (round 7: a log preview cut at byte 64)
+    let longs = crate::props::c12::long_values();
+    let acc_e = longs
+        .par_iter()
+        .map(|v| {
+            let mut acc = Acc::default();
+            for stream in [format!("a: {v}\nOK\n"), format!("Title: x\nb: {v}\nlist_OK\nOK\n"), format!("ACK [5@0] {{play}} {v}\n"), format!("a: 1\nACK [50@1] {{}} {v}\n")] {
+                let stream = stream.into_bytes();
+                let n = stream.len();
+                c09_check_stream(&stream, &[vec![], vec![n / 2], chunked(n, 61)], &mut acc);
+            }
+            acc
+        })
+        .reduce(Acc::default, Acc::merge);
+    let mut acc = acc_a.merge(acc_b).merge(acc_c).merge(acc_d).merge(acc_e);
     acc.samples.push(json!({"all_strings_over": show_bytes(alphabet), "max_len": maxlen, "count": strings.len(), "corruption_pool": pool.len(), "numeric_edge_streams": edges.len(), "large_well_formed_streams": bigs.len()}));
     let cov = proto_coverage(
         &acc,
-        "(a) every byte string of length <= max_len over 10 protocol symbols, as response stream and as greeting; (b) every single-byte substitution by 7 bytes / deletion / insertion / truncation of a pool of grammar streams; (c) binary: N and ACK [N@M] for 12 numeric edge spellings; (d) well-formed streams of <=2 large binary components (10..140000 bytes) with responses pipelined behind them, in one read and in 1000..65536-byte reads; under one-read, byte-at-a-time and single-cut segmentations, both flavours, inside catch_unwind; non-trivial = streams that are not a clean sequence of well-formed responses",
+        "(a) every byte string of length <= max_len over 10 protocol symbols, as response stream and as greeting; (b) every single-byte substitution by 7 bytes / deletion / insertion / truncation of a pool of grammar streams; (c) binary: N and ACK [N@M] for 12 numeric edge spellings; (d) well-formed streams of <=2 large binary components (10..140000 bytes) with responses pipelined behind them, in one read and in 1000..65536-byte reads; (e) field values and ACK messages of 9..4100 bytes with multi-byte characters straddling every likely clip length; everything once more with logging switched on (a subscriber interested in every trace! / debug! call site); under one-read, byte-at-a-time and single-cut segmentations, both flavours, inside catch_unwind; non-trivial = streams that are not a clean sequence of well-formed responses",
         json!({"max_len": maxlen}),
     );
-    finish(&ctx, cov, acc.viol)
+    // (round 7) the whole enumeration once more with logging switched on: the library's trace! / debug! call
+    // sites evaluate their arguments only then
+    let (mut cov, mut viol) = (cov, acc.viol);
+    logging_on_pass(&ctx, &mut cov, &mut viol);
+    finish(&ctx, cov, viol)
 }
 
 // ---------------------------------------------------------------------------------------------
